@@ -295,6 +295,71 @@ theorem etag_recognised (name e : Bytes) (h : StrongTag e) : rewriteINM name (ad
 theorem weak_inm_untouched (name inm : Bytes) (h : hasPrefix vWeakPrefix inm = true) : rewriteINM name inm = inm := by
   simp [rewriteINM, h]
 
+/-! ### Accept-Encoding read as RFC 9110 means it (§12.5.3): refusals by name, the wildcard `*` -/
+
+/-- **every RFC spelling of a refusal is read as a refusal**: a list element `name OWS ";" OWS q=0` — the coding
+    name in any case, `q` or `Q`, any white space (SP / HTAB) before and after `;` and around the element, the
+    weight written `0`, `0.`, `0.0`, `0.00` or `0.000` — names `toLower name` and carries the weight 0. -/
+theorem rfc_refusal_read_as_refusal (lead name ows1 ows2 : Bytes) (qc : UInt8) (qv trail : Bytes)
+    (hlead : IsOWS lead) (hname : IsToken name) (h1 : IsOWS ows1) (h2 : IsOWS ows2) (ht : IsOWS trail)
+    (hq : qc = 113 ∨ qc = 81) (hz : qv ∈ zeroSpellings) :
+    elemName (weightedElem lead name ows1 ows2 qc qv trail) = toLower name ∧
+      elemQ (weightedElem lead name ows1 ows2 qc qv trail) = 0 := by
+  have hs := splitOn_weighted lead name ows1 ows2 qc qv trail hlead hname h1 h2 ht hq hz
+  constructor
+  · unfold elemName; rw [hs]
+    exact elemName_padded lead name ows1 [] hlead hname h1
+  · unfold elemQ; rw [hs]
+    show qOfParam (ows2 ++ ([qc, 61] ++ qv) ++ trail) = 0
+    simp only [zeroSpellings, List.mem_cons, List.not_mem_nil, or_false] at hz
+    have htrim : ∀ w : Bytes, (∀ c, w.head? = some c → isSpace c = false) → (∀ c, w.getLast? = some c → isSpace c = false) →
+        trimSpace (ows2 ++ w ++ trail) = w :=
+      fun w a b => trimSpace_padded ows2 w trail (ows_isSpace h2) (ows_isSpace ht) a b
+    unfold qOfParam
+    rcases hq with rfl | rfl <;> rcases hz with rfl | rfl | rfl | rfl | rfl <;>
+      (rw [htrim _ (by intro c hc; cases hc; decide) (by intro c hc; cases hc; decide)]; decide)
+
+/-- an element without a weight names its coding (lower-cased) with the weight 1 -/
+theorem rfc_plain_element (lead name trail : Bytes) (hlead : IsOWS lead) (hname : IsToken name) (ht : IsOWS trail) :
+    elemName (plainElem lead name trail) = toLower name ∧ elemQ (plainElem lead name trail) = 1000 := by
+  have hl : (59 : UInt8) ∉ lead ++ name ++ trail := by
+    simp only [List.mem_append, not_or]
+    exact ⟨⟨ows_no_semicolon hlead, token_no_semicolon hname⟩, ows_no_semicolon ht⟩
+  have hs : splitOn 59 (plainElem lead name trail) = [lead ++ name ++ trail] := splitOn_not_mem 59 _ hl
+  constructor
+  · unfold elemName; rw [hs]; exact elemName_padded lead name trail [] hlead hname ht
+  · unfold elemQ; rw [hs]
+
+/-- **a coding refused by name is never applied, whatever `*` (or anything else) says**: if every element of
+    the header that names `c` carries the weight 0, `ServeHTTP` does not negotiate `c`. -/
+theorem refused_by_name_never_applied (offered prefer : List Bytes) (req : Req) (c : Bytes)
+    (h : ∀ elem ∈ splitOn 44 req.acceptEnc, elemName elem = c → elemQ elem = 0) :
+    chooseEncoding offered prefer req ≠ some c := by
+  intro hc
+  obtain ⟨⟨elem, he, hn, hq⟩, _⟩ := negotiated_only_if offered prefer req c hc
+  have := h elem he hn
+  omega
+
+/-- **the wildcard never stands in for a coding**: a coding no element names is not applied — `*` (with any
+    weight, `*;q=0` included) and `identity;q=0` neither enable nor force a coding. -/
+theorem unlisted_never_applied (offered prefer : List Bytes) (req : Req) (c : Bytes)
+    (h : ∀ elem ∈ splitOn 44 req.acceptEnc, elemName elem ≠ c) :
+    chooseEncoding offered prefer req ≠ some c := by
+  intro hc
+  obtain ⟨⟨elem, he, hn, _⟩, _⟩ := negotiated_only_if offered prefer req c hc
+  exact h elem he hn
+
+/-- **`gzip;q=0, *` means "anything but gzip"**: in a header made of list elements, if the elements that name
+    `c` are refusals (in any RFC spelling, see `rfc_refusal_read_as_refusal`) then `c` is not applied — however
+    many `*` elements with whatever weight stand next to them. -/
+theorem rfc_named_refusal_beats_wildcard (offered prefer : List Bytes) (req : Req) (es : List Bytes) (c : Bytes)
+    (hne : es ≠ []) (hcomma : ∀ e ∈ es, (44 : UInt8) ∉ e) (hae : req.acceptEnc = joinElems es)
+    (href : ∀ e ∈ es, elemName e = c → elemQ e = 0) :
+    chooseEncoding offered prefer req ≠ some c := by
+  apply refused_by_name_never_applied
+  rw [hae, splitOn_joinElems es hne hcomma]
+  exact href
+
 /-! ### the glue: from an `encode` directive of a Caddyfile to the configuration the handler runs with -/
 
 /-- `Validate` accepts `prefer` exactly when it lists enabled encodings only and none twice -/
@@ -490,6 +555,16 @@ example : isLoadErr (adaptEncode [] [⟨[vGzip], none⟩, ⟨[vGzip], none⟩]) 
 example : isLoadErr (adaptEncode [] [⟨[vGzip, [57, 57]], none⟩]) = true := by decide
 -- the token-stream quirk: `minimum_length 5 zstd` on one line enables zstd
 example : loadedSummary (adaptEncode [] [⟨[tMinimumLength, [53], vZstd], none⟩]) = some ([vZstd], [vZstd], 5) := by decide
+
+-- the RFC theorems: `GZIP ;\tQ=0.000` is an instance of `weightedElem`; `gzip;q=0, *`, `gzip;q=0,*;q=1` with gzip
+-- preferred and offered negotiate nothing, `gzip;q=0, *, zstd` negotiates zstd; `identity;q=0, *;q=0` nothing
+example : weightedElem [] [71, 90, 73, 80] [32] [9] 81 [48, 46, 48, 48, 48] [32]
+    = [71, 90, 73, 80, 32, 59, 9, 81, 61, 48, 46, 48, 48, 48, 32] ∧ IsToken [71, 90, 73, 80] :=
+  ⟨by decide, by decide, by decide⟩
+example : chooseEncoding [vGzip, vZstd] [vGzip] ⟨false, [103, 122, 105, 112, 59, 113, 61, 48, 44, 32, 42], false, [], []⟩ = none := by decide
+example : chooseEncoding [vGzip] [vGzip] ⟨false, [71, 90, 73, 80, 32, 59, 9, 81, 61, 48, 46, 48, 48, 48, 32, 44, 42, 59, 113, 61, 49], false, [], []⟩ = none := by decide
+example : chooseEncoding [vGzip, vZstd] [vGzip] ⟨false, [103, 122, 105, 112, 59, 113, 61, 48, 44, 32, 42, 44, 122, 115, 116, 100], false, [], []⟩ = some vZstd := by decide
+example : chooseEncoding [vGzip, vZstd] [] ⟨false, [105, 100, 101, 110, 116, 105, 116, 121, 59, 113, 61, 48, 44, 32, 42, 59, 113, 61, 48], false, [], []⟩ = none := by decide
 
 -- `status_preserved`: its hypotheses are met by exOps' shape (pre = 4 ops, s = 200, body = 4 ops)
 example : ∀ op ∈ ([.hset kCT exTextHtml, .writeHeader 103] : List (Op Nat)), Preliminary op := by
